@@ -31,6 +31,18 @@ type MapStable struct {
 	orc   *oracle
 	ops   []stableOp
 	onOp  func(op stableOp)
+	// transient READ errors (monitored scenarios only; the model's reads never fail): key -> reads to fail
+	readFail map[string]int
+}
+
+var errInjectedRead = errors.New("injected read failure")
+
+func (s *MapStable) failRead(key string) bool {
+	if s.readFail[key] > 0 {
+		s.readFail[key]--
+		return true
+	}
+	return false
 }
 
 func NewMapStable() *MapStable {
@@ -62,6 +74,9 @@ func (s *MapStable) Set(key []byte, val []byte) error {
 func (s *MapStable) Get(key []byte) ([]byte, error) {
 	s.mu.Lock()
 	defer s.mu.Unlock()
+	if s.failRead(string(key)) {
+		return nil, errInjectedRead
+	}
 	v, ok := s.kv[string(key)]
 	if !ok {
 		return nil, errNotFound
@@ -90,6 +105,9 @@ func (s *MapStable) SetUint64(key []byte, val uint64) error {
 func (s *MapStable) GetUint64(key []byte) (uint64, error) {
 	s.mu.Lock()
 	defer s.mu.Unlock()
+	if s.failRead(string(key)) {
+		return 0, errInjectedRead
+	}
 	v, ok := s.kvInt[string(key)]
 	if !ok {
 		return 0, errNotFound
